@@ -182,6 +182,9 @@ UNITS = [
 from contracts.check_type import check_type_unit  # noqa: E402
 UNITS.append(check_type_unit("C03"))
 
+from contracts.class_type import subclass_arm_unit  # noqa: E402
+UNITS.append(subclass_arm_unit("C03"))
+
 VERIFIED_CALLEES = ("self.error",)
 LEVEL = "other"
 TECHNIQUE = "contract-based deductive verification of the explicit error channel (VCs from the real AST, exception flow explored path by path with fault-raising callee contracts) + bounded run-time contract checking over an argv/config grammar"
